@@ -70,7 +70,7 @@ fn slp_cut(bytes: &[u8], cut: usize, skip: bool) -> Result<(), Fail> {
 		));
 	}
 	// the same cut with the `debug` option (dumps event payloads into a directory): one cut in 64 of small files
-	if bytes.len() <= 4096 && (cut * 2654435761usize) >> 7 & 63 == 7 {
+	if bytes.len() <= 4096 && (cut * 2654435761usize) >> 7 & 63 == 7 && rt::debug_budget_take() {
 		let p = rt::with_debug_dir(|dir| {
 			let o = peppi::io::slippi::de::Opts { skip_frames: skip, compute_hash: hash, debug: Some(peppi::io::slippi::de::Debug { dir: dir.to_path_buf() }) };
 			let mut r = crate::readers::SchedReader::new(&bytes[..cut], crate::readers::Schedule::Full);
@@ -110,7 +110,8 @@ fn slp_offsets(m: &ModelGame, len: usize, exhaustive: bool, seed: u64) -> Vec<us
 		}
 	}
 	let mut r = SplitMix(seed);
-	for _ in 0..2000.min(len) {
+	// (files beyond 200 KB get fewer random cuts: each cut re-parses the prefix)
+	for _ in 0..(if len > 200_000 { 200 } else { 2000.min(len) }) {
 		v.push(r.below(len));
 	}
 	for c in [0, 1, 10, 11, 14, 15, 16, len - 1, len - 2] {
